@@ -199,7 +199,7 @@ def rule_r3(repo, run):
     table_ = {}
     cur = ifs[0]
     while True:
-        key = sm.seg(cur.test)
+        key = str(sm.seg(cur.test))
         inner = [x for x in cur.body if isinstance(x, ast.If)]
         if inner:
             t = pyflow.const_str(inner[0].body[0].value)
@@ -213,8 +213,8 @@ def rule_r3(repo, run):
             table_["else"] = (pyflow.const_str(cur.orelse[0].value),)
             break
     n += 1
-    run.check(R, "statements.compute_return_prefix", table_.get('local_var == "scalar"') == ("&", "") and
-              table_.get('local_var == "pointer"') == ("", "*") and table_.get("arg.is_reference()") == ("&",) and
+    run.check(R, "statements.compute_return_prefix", table_.get("local_var == 'scalar'") == ("&", "") and
+              table_.get("local_var == 'pointer'") == ("", "*") and table_.get("arg.is_reference()") == ("&",) and
               table_.get("else") == ("",),
               "return prefix table changed: %s" % table_, sm.loc(f), sample=dict(table={k: list(v) for k, v in table_.items()}))
     # call_list forms in wrap_function
@@ -224,11 +224,11 @@ def rule_r3(repo, run):
         if isinstance(node, ast.Call) and isinstance(node.func, ast.Attribute) and node.func.attr == "append" and \
                 pyflow.dotted(node.func.value) == "call_list":
             conds = [(wc.seg(t), p) for t, p in pyflow.dominating_tests(node, stop=f)]
-            forms[wc.seg(node.args[0])] = forms.get(wc.seg(node.args[0]), []) + [conds]
+            forms[str(wc.seg(node.args[0]))] = forms.get(str(wc.seg(node.args[0])), []) + [conds]
     def has(form, *needles):
-        for conds in forms.get(form, []):
+        for conds in forms.get(form.replace('"', "'"), []):
             flat = " ".join("%s=%s" % c for c in conds)
-            if all(nd in flat for nd in needles):
+            if all(nd.replace('"', "'") in flat for nd in needles):
                 return True
         return False
     n += 4
